@@ -95,6 +95,21 @@ class SimProblem(Problem):
         return self._actor.on_objective_call(point, functionValue)
 
 
+class SharedSimProblem(SimProblem):
+    """ONE Problem object handed to several solvers (parameter studies on one problem): the call is attributed to
+    the solver whose operation is executing (the simulator runs one operation at a time, re-entrant ones on a stack)."""
+
+    def __init__(self, actor, world):
+        super().__init__(actor)
+        self._world = world
+
+    def Calculate(self, point, functionValue):
+        for a in reversed(self._world.exec_stack):
+            if a.problem is self:
+                return a.on_objective_call(point, functionValue)
+        raise HarnessError("shared problem evaluated while none of its solvers is executing an operation")
+
+
 class SimClock:
     """Simulated wall clock.  Advances only when the simulation says so."""
 
@@ -296,16 +311,25 @@ class SolverActor:
     def create(self):
         w = self.world
         try:
-            self.problem = SimProblem(self)
+            pshare = self.spec.get("problem_obj")
+            if pshare and pshare in w.shared_problems:
+                self.problem = w.shared_problems[pshare]
+                w.fired["solver_on_shared_problem_object"] += 1
+            elif pshare:
+                self.problem = w.shared_problems[pshare] = SharedSimProblem(self, w)
+            else:
+                self.problem = SimProblem(self)
             p = self.params
             share = self.spec.get("params_obj")
             if share == "default":
                 # Solver(problem) without a parameters argument: the library's shared default object
                 self.parameters = None
+                w.fired["solver_on_default_parameters_object"] += 1
                 self.solver = Solver(self.problem)
             else:
                 if share and share in w.shared_params:
                     self.parameters = w.shared_params[share]     # one SolverParameters object used for several solvers
+                    w.fired["solver_on_shared_parameters_object"] += 1
                 else:
                     self.parameters = SolverParameters(eps=p.get("eps", 0.01), r=p["r"], itersLimit=p.get("itersLimit", 20000),
                                                        evolventDensity=p.get("evolventDensity", 10),
@@ -699,6 +723,8 @@ class World:
         for aid in sorted(plan["actors"]):
             self.actors[aid] = SolverActor(self, aid, plan["actors"][aid])
         self.shared_params = {}
+        self.shared_problems = {}
+        self.exec_stack = []
         self.nested_eval = {}
         self.nested_cb = {}
         for n in plan.get("nested", []):
@@ -836,6 +862,7 @@ class World:
         outcome = {"raised": None, "result": None}
         self.log("op", a.aid, "%s %s" % (kind, op.get("k", op.get("n", ""))))
         pre_trials = len(a.global_calls())
+        self.exec_stack.append(a)
         try:
             if kind == "iterate":
                 a.solver.DoGlobalIteration(int(op["k"]))
@@ -859,6 +886,7 @@ class World:
             outcome["exc"] = e
             self.log("op_raised", a.aid, "%s %s" % (kind, type(e).__name__))
         finally:
+            self.exec_stack.pop()
             a.cur_op = None
             a.active = False
             a.cb_depth = 0
